@@ -285,3 +285,62 @@ Definition update_col_stats_ok (offs widths : list nat) (dims : list Z) : bool :
 Definition target_resort_ok (o : list (Z * nat)) (observed : list (Z * nat)) : bool :=
   list_eqb (fun a b => Z.eqb (fst a) (fst b) && Nat.eqb (snd a) (snd b)) (target_resort o) observed
   || negb (length o =? 2)%nat.
+
+(* ------------------------------------------------------------------------- *)
+(* The statistics store of a Dataset across a HISTORY (Dataset.materialize, step 1).
+   `_col_stats` is one dict object: it survives a failed materialize (entries written before the
+   raise stay), and copy.copy in col_select makes a column-selected dataset SHARE it with the
+   dataset it was taken from.  A store is that dict; `compute c df` stands for
+   compute_col_stats(df[c], ...) followed by the binary-target re-sort (None = it raises). *)
+Section Store.
+  Context {Frame Stat : Type}.
+  Variable compute : String.string -> Frame -> option Stat.
+
+  Definition store := list (String.string * Stat).
+  Fixpoint slookup (s : store) (c : String.string) : option Stat :=
+    match s with
+    | [] => None
+    | (c', v) :: r => if String.eqb c' c then Some v else slookup r c
+    end.
+  (* self._col_stats[c] = v *)
+  Fixpoint sset (s : store) (c : String.string) (v : Stat) : store :=
+    match s with
+    | [] => [(c, v)]
+    | (c', v') :: r => if String.eqb c' c then (c, v) :: r else (c', v') :: sset r c v
+    end.
+
+  (* for col, stype in self.col_to_stype.items(): self._col_stats[col] = compute_col_stats(...)
+     -- in declaration order; a raise leaves what was written so far; true = the loop completed *)
+  Fixpoint fill (cols : list String.string) (df : Frame) (s : store) : store * bool :=
+    match cols with
+    | [] => (s, true)
+    | c :: r =>
+        match compute c df with
+        | None => (s, false)
+        | Some v => fill r df (sset s c v)
+        end
+    end.
+
+  (* one step of a history: a not yet materialized dataset object that shares the store -- the
+     dataset itself or a column-selected copy declaring `cols` -- runs materialize on the frame
+     `df` it holds at that moment (between steps the user may replace / edit the frame freely) *)
+  Definition hop := (list String.string * Frame)%type.
+  Fixpoint run_history (ops : list hop) (s : store) : store * list bool :=
+    match ops with
+    | [] => (s, [])
+    | (cols, df) :: r =>
+        let (s1, ok) := fill cols df s in
+        let (s2, oks) := run_history r s1 in
+        (s2, ok :: oks)
+    end.
+End Store.
+
+(* correspondence form: frames are version numbers, a statistic is the version it was computed
+   from; `table` lists the (column, version) pairs on which compute_col_stats raises *)
+Definition history_ok (raises : list (String.string * nat)) (ops : list (list String.string * nat))
+           (observed_flags : list bool) (final_cols : list String.string) (observed_versions : list Z) : bool :=
+  let compute := fun c v => if existsb (fun p => String.eqb (fst p) c && Nat.eqb (snd p) v) raises
+                            then None else Some (Z.of_nat v) in
+  let (s, oks) := run_history compute ops [] in
+  list_eqb Bool.eqb oks observed_flags
+  && list_eqb Z.eqb (map (fun c => match slookup s c with Some v => v | None => (-1)%Z end) final_cols) observed_versions.
